@@ -39,6 +39,7 @@ EXPLANATION = (
     "that is only lowered, written to the whole group. (d) a point-wise "
     "truth table over target in {T,F} x (q<t, q=t, q>t) for the label "
     "function and flag pass-through to tdc. (e) the score vector only "
+    "Also: a tolerance comparison (isclose) of q-value and threshold is tabulated both ways; the wrapper that feeds tdc applies no narrowing conversion. "
     "reaches order-preserving operations. NOT decided: numerical equality "
     "with the formula for concrete inputs, dtype effects.")
 TECHNIQUE = ("def-use term reconstruction + linear normal form + abstract "
